@@ -46,7 +46,7 @@ def common_installation(rng: random.Random):
                                    groups=None if old_format else rng_z))
         acs5.append(console.AcSpec(i, name, modes, fans + [False], (lo, hi, lo, hi), start=bounds[i], count=bounds[i + 1] - bounds[i]))
     names = {z: rng.choice(["Living", "Bed", "Z%d" % z]) for z in range(n_z)}
-    ver = (rng.random() < 0.5, ["1.2.3"])
+    ver = (rng.random() < 0.5, rng.choice([["1.2.3"], ["1.0.3", "1.0.1"]]))       # one console, or two
     # the order in which a console lists its zone names is its own business: half of the time each console uses another
     order4, order5 = list(names), list(names)
     if rng.random() < 0.5:
@@ -260,7 +260,7 @@ def check_c19(tier: str) -> int:
                     push_both(r4, r5, i4.error_message(n), i5.error_message(n))
                     what = f"error text {text!r}"
                 else:
-                    ver = (rng.random() < 0.5, rng.choice([["1.2.3"], ["2.0"]]))
+                    ver = (rng.random() < 0.5, rng.choice([["1.2.3"], ["2.0"], ["1.0.3", "1.0.1"], ["2.0", "2.0", "1.9"]]))
                     i4.version = i5.version = ver
                     push_both(r4, r5, i4.version_message(), i5.version_message())
                     what = f"version {ver}"
